@@ -12,7 +12,7 @@ PROPS = {
         "rel_replay": True,
         "quick_ms": 20000,
         "thorough_ms": 300000,
-        "floors": {"gate.accepted": 1000, "result.ok": 500, "result.err": 500, "ignore_errors.parses": 25},
+        "floors": {"argv.long-vectors": 500, "shape.more-than-64-arguments-in-a-command": 250, "shape.more-than-4-levels": 50, "gate.accepted": 1000, "result.ok": 500, "result.err": 500, "ignore_errors.parses": 25},
         "rule": "random command trees (wild + targeted strata: args_conflicts_with_subcommands x groups x flag subcommands, "
                 "hyphen values x terminators, allow_missing_positional x last, infer_*, ignore_errors, external subcommands), "
                 "validity-gated by clap's own debug asserts, x hostile argv (tree-derived names 60%, hostile token alphabet incl. "
@@ -59,7 +59,7 @@ PROPS = {
     "C20": {
         "quick_ms": 15000,
         "thorough_ms": 240000,
-        "floors": {"plain.with_breaks": 5000, "plain.no_breaks": 500, "styled.with_breaks": 500, "styled.with_escapes": 250, "plain.with_escapes": 250,
+        "floors": {"width.beyond-120": 10000, "plain.with_breaks": 5000, "plain.no_breaks": 500, "styled.with_breaks": 500, "styled.with_escapes": 250, "plain.with_escapes": 250,
                    "plain.overlong_single_word": 50, "exhaustive.strings": 50000},
         "rule": "exhaustive: every string of <= 6 (quick) / 7 (thorough) symbols over {a, bb, ' ', '  ', LF, wide CJK, e+combining acute} "
                 "x widths 1..8 through textwrap::wrap (template `[{author}]`), one width each through StyledStr::wrap (`[{about}]`); "
@@ -79,7 +79,7 @@ PROPS = {
     "C04": {
         "quick_ms": 12000,
         "thorough_ms": 240000,
-        "floors": {"ranged.accepted": 5000, "ranged.rejected": 50000, "ranged.real_parse_ok": 500, "boolish.accepted": 25, "boolish.rejected": 25,
+        "floors": {"ranged.composed-ranges": 1000, "ranged.accepted": 5000, "ranged.rejected": 50000, "ranged.real_parse_ok": 500, "boolish.accepted": 25, "boolish.rejected": 25,
                    "falsey.accepted": 25, "possible.accepted": 500, "possible.rejected": 500, "access.downcast": 250, "access.unknown": 250,
                    "access.removed": 250, "access.present-without-values": 100, "exhaustive.triples": 500000},
         "rule": "exhaustive: for T in {i8,i16,i32,i64,u8,u16,u32} x ranges with bounds from {T::MIN, T::MIN+1, -1, 0, 1, T::MAX-1, T::MAX} "
@@ -104,7 +104,7 @@ PROPS = {
     "C02": {
         "quick_ms": 20000,
         "thorough_ms": 300000,
-        "floors": {"result.ok": 10000, "spelling.cluster.option-last": 100, "spelling.opt.long-eq": 500, "spelling.opt.short-attached": 150,
+        "floors": {"shape.positionals-declared-out-of-index-order": 2000, "shape.last-positional-after-omitted-one": 150, "shape.last-positional-after-omitted-one.out-of-index-order": 20, "shape.more-than-20-items": 500, "spelling.prefix.long-by-setting-two-levels-up": 500, "spelling.sub.long-flag-prefix": 150, "result.ok": 10000, "spelling.cluster.option-last": 100, "spelling.opt.long-eq": 500, "spelling.opt.short-attached": 150,
                    "spelling.prefix.long": 250, "spelling.escape.optional": 150, "spelling.escape.required-for-last": 150,
                    "spelling.terminator": 100, "spelling.sub.short-flag": 50, "spelling.sub.long-flag": 50, "spelling.pos.multi": 500},
         "rule": "conventional-class command trees (flags SetTrue/SetFalse/Count, options Set/Append with num_args in {1, 2, 1..=3, 2..=3, 1.., 0.., 0..=1}, "
@@ -144,7 +144,7 @@ PROPS = {
     "C08": {
         "quick_ms": 20000,
         "thorough_ms": 300000,
-        "floors": {"rewrite.both-ok": 10000, "ambiguous.probes": 1000, "ambiguous.arg-vs-flag-subcommand": 50, "ambiguous.sub-probes": 50,
+        "floors": {"spelling.cluster.parent-flags-before-flag-sub": 250, "spelling.cluster.child-flags-after-flag-sub": 500, "spelling.sub.long-flag-prefix": 500, "spelling.prefix.long-by-setting-two-levels-up": 2500, "rewrite.both-ok": 10000, "ambiguous.probes": 1000, "ambiguous.arg-vs-flag-subcommand": 50, "ambiguous.sub-probes": 50,
                    "spelling.prefix.long": 250, "spelling.cluster.flags": 150, "spelling.opt.short-attached": 150, "spelling.escape.optional": 150,
                    "spelling.sub.alias": 100, "rewrite.index-rank-compare": 100},
         "rule": "conventional command trees (as C02) x valid intents; the canonical rendering (full names, separate tokens) is compared with 3 "
@@ -164,7 +164,7 @@ PROPS = {
     "C05": {
         "quick_ms": 15000,
         "thorough_ms": 240000,
-        "floors": {"tail.ok": 10000, "tail.dash-tokens": 5000, "tail.after-values-before-escape": 2500, "tail.dont-delimit-with-delimiter": 500, "tail.terminator-declared": 2500},
+        "floors": {"tail.after-values-of-negative-number-positional": 1000, "tail.ok": 10000, "tail.dash-tokens": 5000, "tail.after-values-before-escape": 2500, "tail.dont-delimit-with-delimiter": 500, "tail.terminator-declared": 2500},
         "rule": "conventional commands (options, flags, subcommands incl. flag subcommands, infer_*) whose tail level (root or a subcommand) ends in a "
                 "multi-valued positional `rest` (num_args 0.. / 1.., Set/Append, with/without last(true), with/without a leading single positional (sometimes with explicit indices and the higher index declared first), "
                 "String or OsString parser, optional delimiter, dont_delimit_trailing_values, optional value terminator `end` with/without ignore_case) x valid prefixes rendered from intents (any spelling; "
@@ -182,7 +182,7 @@ PROPS = {
     "C06": {
         "quick_ms": 15000,
         "thorough_ms": 240000,
-        "floors": {"lattice.Cli": 10000, "lattice.Env": 5000, "lattice.Default": 5000, "lattice.absent": 2500, "lattice.default_if_fired": 1000,
+        "floors": {"verdict.ok-after-ignored-error": 10000, "lattice.Cli": 10000, "lattice.Env": 5000, "lattice.Default": 5000, "lattice.absent": 2500, "lattice.default_if_fired": 1000,
                    "lattice.default_if_unset": 150, "lattice.default_missing_used": 1000, "verdict.err-as-expected": 1500,
                    "lattice.global-redeclared.Cli": 500, "lattice.global-redeclared.Env": 500, "lattice.flag-env-falsey-parser": 2500, "lattice.flag-env-empty": 150, "lattice.group.Some(Cli)": 2000, "lattice.group.Some(Env)": 500, "lattice.group.None": 1000, "lattice.group-conflict": 500},
         "rule": "2-5 arguments each drawing a subset of {default_value(s), default_value_if(s) (IsPresent/Equals, Some/None default) on a plain "
@@ -205,7 +205,7 @@ PROPS = {
     "C09": {
         "quick_ms": 20000,
         "thorough_ms": 300000,
-        "floors": {"result.ok": 10000, "global.supplied-at-depth-1": 1500, "global.supplied-at-depth-2": 500, "external.checked": 150,
+        "floors": {"spelling.sub.long-flag-prefix": 250, "result.ok": 10000, "global.supplied-at-depth-1": 1500, "global.supplied-at-depth-2": 500, "external.checked": 150,
                    "spelling.cluster.child-flags-after-flag-sub": 150, "spelling.cluster.parent-flags-before-flag-sub": 50,
                    "spelling.sub.short-flag": 250, "spelling.sub.long-flag": 150, "spelling.sub.alias": 150},
         "rule": "conventional trees of depth <= 2 with global flags/options (SetTrue/SetFalse/Count/Set, defaults) defined at depth 0 or 1, aliases, "
@@ -240,7 +240,7 @@ PROPS = {
     "C10": {
         "quick_ms": 20000,
         "thorough_ms": 300000,
-        "floors": {"faultfree.accepted": 5000, "fault.UnknownLong": 2500, "fault.SurplusPositional": 500, "fault.DropRequired": 500, "fault.RepeatSet": 150,
+        "floors": {"faultfree.prefix-by-inherited-setting": 250, "faultfree.accepted": 5000, "fault.UnknownLong": 2500, "fault.SurplusPositional": 500, "fault.DropRequired": 500, "fault.RepeatSet": 150,
                    "fault.TooFewValues": 500, "fault.NoValueAtEnd": 500, "fault.ValueOnFlag": 1000, "fault.BadTypedValue": 250, "fault.MissingEquals": 40,
                    "fault.MissingSubcommand": 50, "fault.NonUtf8": 1500, "fault.UnknownWord": 150, "contract.DisplayHelp": 50, "contract.DisplayVersion": 15,
                    "relations.conflict-error": 1000, "relations.missing-error": 1000, "suggestion.arg": 50, "suggestion.subcommand": 15},
@@ -277,7 +277,7 @@ PROPS = {
         "rel_replay": True,
         "quick_ms": 20000,
         "thorough_ms": 300000,
-        "floors": {"render.ok": 10000, "render.width-sweep": 10000, "helpflag.rendered": 10000, "helpflag.level-checked": 5000, "visible.checked": 25000,
+        "floors": {"hidden.arg-of-a-level-above-checked": 2500, "width.beyond-200": 500, "render.ok": 10000, "render.width-sweep": 10000, "helpflag.rendered": 10000, "helpflag.level-checked": 5000, "visible.checked": 25000,
                    "visible.checked-short-only": 1500, "hidden.arg-checked": 1500, "hidden.subcommand-checked": 1500, "hidden.possible-value-checked": 150,
                    "visible.possible-value-checked": 500, "stratum.sparse-sections": 1000, "helpsub.rendered": 1000,
                    "hidden.custom-template-pages": 2500, "hidden.mode-hidden-option-checked": 1500},
@@ -343,7 +343,7 @@ PROPS = {
     "C16": {
         "quick_ms": 30000,
         "thorough_ms": 300000,
-        "floors": {"generated.bash": 500, "generated.zsh": 500, "generated.fish": 500, "generated.powershell": 500, "generated.elvish": 500,
+        "floors": {"shape.two-trailing-positionals.first-terminated": 10, "shape.two-trailing-positionals.first-catch-all": 10, "generated.bash": 500, "generated.zsh": 500, "generated.fish": 500, "generated.powershell": 500, "generated.elvish": 500,
                    "generated.nushell": 500, "mention.checked": 25000, "mention.short-checked": 10000, "bash.syntax-ok": 500, "bash.queries": 10000},
         "rule": "wild command trees (depth <= 2, marker names incl. hyphenated / underscored / rarely `__` subcommand names, aliases, flag subcommands, "
                 "value hints, possible values incl. hidden, hidden args/subcommands, globals, groups/relations, benign or hostile text) x the six "
@@ -380,7 +380,7 @@ PROPS = {
     "C15": {
         "quick_ms": 15000,
         "thorough_ms": 240000,
-        "floors": {"roundtrip.ok": 10000, "agree.ok": 15000, "agree.err": 15000, "update.ok": 5000, "update.unnamed-field-kept": 5000, "value_enum.names": 500,
+        "floors": {"update.flattened-enum.own-variant-to-flattened-child": 500, "update.flattened-enum.flattened-child-to-other-flattened-child": 500, "update.flattened-enum.same-variant": 250, "update.flattened-enum.to-own-variant": 500, "roundtrip.ok": 10000, "agree.ok": 15000, "agree.err": 15000, "update.ok": 5000, "update.unnamed-field-kept": 5000, "value_enum.names": 500,
                    "type.N": 500, "type.A": 500, "type.B": 500, "type.C": 500, "type.D": 500, "type.E": 500, "type.F": 500, "type.G": 500, "type.L": 500,
                    "update.sub.option.same-variant": 300, "update.sub.option.other-variant": 300, "update.sub.plain.same-variant": 300, "update.sub.option.no-subcommand-named": 150},
         "rule": "corpus of 11 derived Parser types (+ Args, 3 Subcommand enums, 1 ValueEnum) spanning bool / SetFalse bool / counter / T / Option<T> / "
